@@ -36,6 +36,31 @@ def check(ctx, R):
     _async(ctx, R, T)
     from .c12 import _transport_close
     _transport_close(ctx, R, only=("transport.tcp_transport.TcpTransport", "transport.tcp_transport_async.TcpTransportAsync"))   # close is idempotent, a closed transport can connect again
+    # the address a session goes to: (host, port) stored unchanged and forwarded unchanged by the TCP device classes
+    from ..argrule import arg_rule
+    for cq in ("transport.tcp_transport.TcpTransport", "transport.tcp_transport_async.TcpTransportAsync"):
+        cls = ctx.pkg.cls(cq)
+        init = cls.methods["__init__"]
+        b = {p: ("p", p) for p in init.params[1:]}
+        obj = ("new", cls.qualname, tuple(sorted(b.items())))
+        R.check(T.attr(obj, "_host") == ("p", "host") and T.attr(obj, "_port") == ("p", "port"), "ADDR", cq, "host and port are stored unchanged",
+                "the transport stores host=%s port=%s" % (show(T.attr(obj, "_host")), show(T.attr(obj, "_port"))), init.loc())
+        okd, dv = ctx.fold.try_eval(init.defaults.get("port", ast.Constant(value=None)), init.mod, {})
+        R.check(okd and dv == 5555, "ADDR", cq + "|default-port", "default port 5555", "default ADB port is %r" % (dv,), init.loc())
+    for fq, tname in (("adb_device.AdbDeviceTcp.__init__", "TcpTransport"), ("adb_device_async.AdbDeviceTcpAsync.__init__", "TcpTransportAsync")):
+        f = ctx.pkg.func(fq)
+        g = ctx.cfg(f)
+        mk = [(n, c) for n in g.live_nodes() for c in node_calls(n) if isinstance(c.func, ast.Name) and c.func.id == tname]
+        ok = len(mk) == 1
+        if ok:
+            t = T.term(f, mk[0][0], mk[0][1])
+            ok = t[0] == "new" and dict(t[2]).get("host") == ("p", "host") and dict(t[2]).get("port") == ("p", "port")
+        R.check(ok, "ADDR", fq, "the TCP device connects to the (host, port) it was given", "the TCP device class does not build its transport from (host, port) unchanged", f.loc())
+    arg_rule(ctx, R, "net", "ARG-net", min_count=6)
+    # the write side of the contract: bulk_write reports what the library accepted (same instances as C15)
+    from .c15 import transport_write_returns_count
+    for cq in ("transport.tcp_transport.TcpTransport", "transport.tcp_transport_async.TcpTransportAsync"):
+        transport_write_returns_count(ctx, R, ctx.pkg.cls(cq))
     R.assume("select.select / socket.recv / asyncio streams / async_timeout behave as documented")
     R.undecided("wall-clock lower bounds, OS-level fragmentation and whole loopback sessions are outside the source")
 
